@@ -282,7 +282,7 @@ func c10(ctx *core.Ctx) {
 		}
 	}
 	// sequences of mixed panicking and normal requests on one container
-	seqs := ctx.N(150, 3000)
+	seqs := ctx.N(150, 60000)
 	for si := 0; si < seqs; si++ {
 		ci := len(cases) + si
 		if ctx.Skip(ci) {
